@@ -812,9 +812,9 @@ Section Sim.
 
   Ltac stop_mk :=
     unfold y_out;
-    first [ apply stopsL_mk
-          | match goal with |- stopsL _ _ ?s _ _ =>
-              eapply (stopsL_mk_eq _ _ _ _ _ _ _ _ _ s); [unfold s; reflexivity|] end ].
+    first [ match goal with |- stopsL _ _ ?s _ _ =>
+              is_var s; eapply (stopsL_mk_eq _ _ _ _ _ _ _ _ _ s); [unfold s; reflexivity|] end
+          | apply stopsL_mk ].
 
   (* the run reaches an excluded state: a stack / frame limit or == on two functions; or the call of
      the literal fe with argc arguments *)
@@ -2899,7 +2899,8 @@ Section Sim.
     destruct (Z.of_nat (length (fe_ps fe)) <? zlength vs) eqn:Eov.
     { (* more arguments than parameters: the excluded call *)
       cbn [sim2]. apply (reachesL_xl prog _ _ _ sc0 Hsc). right. exists O, sc0. split; [reflexivity|].
-      rewrite Hfip, Een. exact (mk_at_call prog B tip2 ops y2 (code_len st2) fin2 fip n vs [] Hcall En). }
+      rewrite Hfip, Een. split; [exact (mk_at_call prog B tip2 ops y2 (code_len st2) fin2 fip n vs [] Hcall En)|].
+      unfold sc0, y_out. mkcbn. lia. }
     set (y0 := mkY (y_m y2) (vs ++ repeat_val VNull (Z.to_nat (n - zlength vs))) (y_funs y2)).
     set (B' := mkB (ops ++ rev (y_loc y2) ++ b_below B) (mkFrame (code_len st2 + 2) (zlength (b_below B)) :: b_rest B)).
     set (s0 := mk B' fip [] y0 fip fin2).
